@@ -104,7 +104,7 @@ func strs(vs []pqfile.Val) []string {
 
 // features lists the unsupported features applicable to a leaf.
 func featuresFor(leaf *pqfile.Node) []string {
-	fs := []string{"index_page", "data_page_v2", "codec_lzo", "codec_brotli", "codec_lz4", "codec_zstd", "codec_lz4_raw"}
+	fs := []string{"index_page", "data_page_v2", "codec_lzo", "codec_brotli", "codec_lz4", "codec_zstd", "codec_lz4_raw", "codec_unassigned_8", "codec_unassigned_1000", "codec_negative"}
 	if leaf.Type != pqfile.TBoolean {
 		fs = append(fs, "dictionary_rle", "dictionary_plain", "dictionary_page_then_plain")
 	}
@@ -241,7 +241,7 @@ func applyFeature(wc *pqfile.WChunk, pi int, feature string) bool {
 			}
 		}
 		p.Body = append(body, pqfile.EncodePlain(leaf.Type, src.Vals)...)
-	case "codec_lzo", "codec_brotli", "codec_lz4", "codec_zstd", "codec_lz4_raw":
+	case "codec_lzo", "codec_brotli", "codec_lz4", "codec_zstd", "codec_lz4_raw", "codec_unassigned_8", "codec_unassigned_1000", "codec_negative":
 		// a codec applies to the whole chunk
 		for i := range wc.Pages {
 			q := &wc.Pages[i]
@@ -261,6 +261,15 @@ func applyFeature(wc *pqfile.WChunk, pi int, feature string) bool {
 			case "codec_lz4_raw":
 				wc.Codec = pqfile.CLz4Raw
 				q.Stored = extra.LZ4RawLiteral(q.Body)
+			case "codec_unassigned_8":
+				wc.Codec = 8 // a codec id a later format version may assign
+				q.Stored = append([]byte{0xF0, 0x0D}, q.Body...)
+			case "codec_unassigned_1000":
+				wc.Codec = 1000
+				q.Stored = append([]byte{0xF0, 0x0D}, q.Body...)
+			case "codec_negative":
+				wc.Codec = -1
+				q.Stored = append([]byte{0xF0, 0x0D}, q.Body...)
 			}
 			q.UncompressedSize = int32(len(q.Body))
 		}
